@@ -13,10 +13,6 @@ import (
 
 	"tkestack.io/galaxy/pkg/api/docker"
 	"tkestack.io/galaxy/pkg/gc"
-	"tkestack.io/galaxy/pkg/network/portmapping"
-	utiliptables "tkestack.io/galaxy/pkg/utils/iptables"
-
-	"verif.local/mc/nfsim"
 )
 
 // C17, daemon side: the garbage collector with the real galaxy daemon's port clean callback (cleanIPtables), over the
@@ -81,12 +77,6 @@ func c17DaemonJob(tier string) Job {
 					}
 					desc := fmt.Sprintf("containers g1(gp-1)=%s with port file %s, g2(gp-2)=%s; both set up by the daemon, no DEL", s1, pf, s2)
 					h.reset()
-					h.kern = nfsim.New()
-					pmh := portmapping.NewVerif(utiliptables.New(h.kern.Exec(), utiliptables.ProtocolIpv4), "")
-					if err := pmh.EnsureBasicRule(); err != nil {
-						panic(err)
-					}
-					h.g.VerifSetPortMappingHandler(pmh)
 					c1, b1 := h.request("ADD", "g1", "gp-1", "eth0")
 					c2, b2 := h.request("ADD", "g2", "gp-2", "eth0")
 					if c1 != 200 || c2 != 200 {
